@@ -4,6 +4,7 @@ import (
 	"github.com/spf13/cast"
 
 	sdkerrors "cosmossdk.io/errors"
+	sdkmath "cosmossdk.io/math"
 	sdk "github.com/cosmos/cosmos-sdk/types"
 	sdkerrtypes "github.com/cosmos/cosmos-sdk/types/errors"
 
@@ -74,6 +75,14 @@ func (k Keeper) Wager(ctx sdk.Context, bet *types.Bet, betOdds map[string]*types
 
 	bet.CreatedAt = ctx.BlockTime().Unix()
 	bet.BetFulfillment = betFulfillment
+
+	// the stake held for the bet is what the order book actually took from the bettor:
+	// the sum of the fulfilled parts, which rounding can leave below the requested stake.
+	fulfilledAmount := sdkmath.ZeroInt()
+	for _, f := range betFulfillment {
+		fulfilledAmount = fulfilledAmount.Add(f.BetAmount)
+	}
+	bet.Amount = fulfilledAmount
 
 	// store bet in the module state
 	k.SetBet(ctx, *bet, betID)
